@@ -267,7 +267,7 @@ func matcherLess(n1 string, t1 int, v1 string, n2 string, t2 int, v2 string) boo
 
 // ---------------------------------------------------------------- AST serialisation (canonical)
 
-type serOpt struct{ set bool } // set: label matchers as a set (duplicates removed) — the equivalence the oracle uses
+type serOpt struct{ set, noTs bool } // set: label matchers as a set (duplicates removed) — the equivalence the oracle uses
 
 func list(xs []string) string {
 	if len(xs) == 0 {
@@ -287,8 +287,10 @@ func ints(xs []int64) string {
 	return strings.Join(ss, ",")
 }
 
-func atStr(ts *int64, se parser.ItemType) string {
+func atStr(ts *int64, se parser.ItemType, o serOpt) string {
 	switch {
+	case ts != nil && o.noTs:
+		return "t?"
 	case ts != nil:
 		return "t" + strconv.FormatInt(*ts, 10)
 	case se == parser.START:
@@ -331,7 +333,7 @@ func serSel(vs *parser.VectorSelector, o serOpt) string {
 		ms = d
 	}
 	var b strings.Builder
-	fmt.Fprintf(&b, "%s %s %d %s %d", plain(vs.Name), atStr(vs.Timestamp, vs.StartOrEnd), vs.OriginalOffset, ints(vs.OriginalOffsetEx), len(ms))
+	fmt.Fprintf(&b, "%s %s %d %s %d", plain(vs.Name), atStr(vs.Timestamp, vs.StartOrEnd, o), vs.OriginalOffset, ints(vs.OriginalOffsetEx), len(ms))
 	for _, m := range ms {
 		fmt.Fprintf(&b, " %s %d %s", plain(m.n), m.t, m.v)
 	}
@@ -359,7 +361,7 @@ func ser(e parser.Expr, o serOpt) string {
 		}
 		return fmt.Sprintf("mat %s %d", serSel(vs, o), n.Range)
 	case *parser.SubqueryExpr:
-		return fmt.Sprintf("sub %d %d %s %d %s", n.Range, n.Step, atStr(n.Timestamp, n.StartOrEnd), n.OriginalOffset, ser(n.Expr, o))
+		return fmt.Sprintf("sub %d %d %s %d %s", n.Range, n.Step, atStr(n.Timestamp, n.StartOrEnd, o), n.OriginalOffset, ser(n.Expr, o))
 	case *parser.ParenExpr:
 		return "par " + ser(n.Expr, o)
 	case *parser.UnaryExpr:
@@ -419,6 +421,9 @@ func roundTrip(e parser.Expr) (what, printed string) {
 		return "noparse", printed
 	}
 	if ser(r.e, serOpt{set: true}) != ser(e, serOpt{set: true}) {
+		if ser(r.e, serOpt{set: true, noTs: true}) == ser(e, serOpt{set: true, noTs: true}) {
+			return "differs-at-timestamp", printed // only an `@ <timestamp>` came back with another value
+		}
 		return "differs", printed
 	}
 	return "", printed
@@ -518,6 +523,16 @@ func lexStrings(h *verifx.H, r *verifx.Rng, text string, toks []token) {
 	}
 }
 
+var decimalRe = regexp.MustCompile(`^([0-9]+)(\.[0-9]*)?$`)
+
+// halfMs: the fraction (".ddd…") lies exactly between two milliseconds
+func halfMs(frac string) bool {
+	if len(frac) < 5 || frac[4] != '5' {
+		return false
+	}
+	return strings.Trim(frac[5:], "0") == ""
+}
+
 const maxSecs = 9223372036 // 2^63 ns / 10^9: the largest `<n>s` model.ParseDuration accepts
 
 // lexLiterals: the number, duration and word tokens of the text, as the real lexer cuts them from the input that starts
@@ -532,7 +547,18 @@ const maxSecs = 9223372036 // 2^63 ns / 10^9: the largest `<n>s` model.ParseDura
 func lexLiterals(h *verifx.H, text string, toks []token, printed bool) {
 	nNum, nWord := 0, 0
 	brace := false
-	for _, t := range toks {
+	for i, t := range toks {
+		// `@ [+-] <decimal>`: the decimal text → milliseconds (model atMs), where float64 cannot disturb the rounding:
+		// at most 6 fraction digits, integer part below 2^32, not exactly half a millisecond
+		if t.name == "NUMBER" && (i >= 1 && toks[i-1].name == "AT" || i >= 2 && toks[i-2].name == "AT" && (toks[i-1].name == "ADD" || toks[i-1].name == "SUB")) {
+			if m := decimalRe.FindStringSubmatch(t.text); m != nil && len(m[1]) <= 9 && len(m[2]) <= 7 && !halfMs(m[2]) {
+				if v, ok := parser.VerifNumber(t.text); ok {
+					h.Op("atms %s", hx(t.text))
+					h.Obs("ms %s", msOf(v))
+					h.Stat("atms", 1)
+				}
+			}
+		}
 		switch t.name {
 		case "LEFT_BRACE":
 			brace = true
@@ -610,6 +636,34 @@ func lexLiterals(h *verifx.H, text string, toks []token, printed bool) {
 			h.Stat("lexword", 1)
 		}
 	}
+}
+
+// lexWhole: every item Lexer.NextItem yields on the text (comments included), name and length, up to EOF or the first error:
+//
+//	> lexall <hex>    < all NAME:len … EOF|ERR
+func lexWhole(h *verifx.H, text string) {
+	if len(text) > 6000 {
+		return
+	}
+	h.Op("lexall %s", hx(text))
+	var b strings.Builder
+	b.WriteString("all")
+	l := parser.Lex(text)
+	for n := 0; n < len(text)+8; n++ {
+		var it parser.Item
+		l.NextItem(&it)
+		if it.Typ == parser.EOF {
+			b.WriteString(" EOF")
+			break
+		}
+		if it.Typ == parser.ERROR {
+			b.WriteString(" ERR")
+			break
+		}
+		fmt.Fprintf(&b, " %s:%d", parser.VerifTokName(it.Typ), len(it.Val))
+	}
+	h.Obs("%s", b.String())
+	h.Stat("lexall", 1)
 }
 
 // lexObs: the model's `tokOk` must hold for every token the real lexer produced, except a duration that
@@ -947,7 +1001,7 @@ func (g *gen) modifiers(allowList bool) string {
 		if g.r.Chance(1, 3) {
 			return g.sp() + "@" + g.sp() + g.caseMix(g.pick("start", "end")) + g.sp() + "(" + g.sp() + ")"
 		}
-		return g.sp() + "@" + g.sp() + g.pick("", "", "-", "+") + g.pick("0", "1", "1.5", "1609459200", "1609459200.123", "0.001", "1e9", "3", "12345.678", "1.0005", "4398046511")
+		return g.sp() + "@" + g.sp() + g.pick("", "", "-", "+") + g.atSeconds()
 	}
 	off := func() string { return g.sp1() + g.caseMix("offset") + g.sp1() + g.offsetVal() }
 	offList := func() string {
@@ -987,6 +1041,35 @@ func (g *gen) modifiers(allowList bool) string {
 		parts[0], parts[1] = parts[1], parts[0] // e.g. a list after a single offset: rejected
 	}
 	return strings.Join(parts, "")
+}
+
+// atSeconds: an `@` timestamp. Half of them random decimals: 0-6 fraction digits (more than the 3 the printer keeps, and
+// 3-digit values whose float64 product with 1000 falls just below / above an integer), small and epoch-sized integer parts
+func (g *gen) atSeconds() string {
+	if g.r.Chance(1, 2) {
+		return g.pick("0", "1", "1.5", "1609459200", "1609459200.123", "0.001", "1e9", "3", "12345.678", "1.0005", "4398046511", "1.0014",
+			"1700000000.1234", "1.001", "1.009", "2.5e3", "1e-3", ".5", "0.0005", "1.9995")
+	}
+	ip := ""
+	switch g.r.Pick(3, 3, 3, 1) {
+	case 0:
+		ip = strconv.Itoa(g.r.Intn(10))
+	case 1:
+		ip = strconv.Itoa(g.r.Intn(100000))
+	case 2:
+		ip = strconv.Itoa(1500000000 + g.r.Intn(400000000))
+	case 3:
+		ip = strconv.Itoa(g.r.Intn(1 << 31))
+	}
+	nd := g.r.Pick(1, 1, 2, 6, 3, 2, 2)
+	if nd == 0 {
+		return ip
+	}
+	fp := make([]byte, nd)
+	for i := range fp {
+		fp[i] = byte('0' + g.r.Intn(10))
+	}
+	return ip + "." + string(fp)
 }
 
 func (g *gen) rangeSuffix() string {
@@ -1211,7 +1294,7 @@ func (g *gen) mutate(src string) string {
 }
 
 func (g *gen) arbitrary() string {
-	switch g.r.Pick(3, 5, 5, 2, 1) {
+	switch g.r.Pick(3, 5, 5, 2, 4) { // the last: input that ends inside `[`, `{`, `(` or a string — followed by valid sources on the same pooled parser
 	case 0:
 		return string(g.r.Bytes(g.r.Intn(40)))
 	case 1:
@@ -1246,7 +1329,8 @@ func (g *gen) arbitrary() string {
 		return strings.Repeat("a + ", n) + "a"
 	}
 	// unterminated things
-	return g.pick("\"abc", "'\\", "`x", "foo{", "foo[", "foo[5m", "(", "{a=", "foo{a=\"b\",", "sum by (", "1 +", "foo @", "foo offset", "\"\\x", "\"\\u12", "foo[5m:", "foo offset [", "foo offset [1m,")
+	return g.pick("\"abc", "'\\", "`x", "foo{", "foo[", "foo[5m", "(", "{a=", "foo{a=\"b\",", "sum by (", "1 +", "foo @", "foo offset", "\"\\x", "\"\\u12", "foo[5m:", "foo offset [", "foo offset [1m,",
+		"foo[5x]", "rate(foo[5", "foo offset [1s, 2", "foo{a=\"b\"", "(a + b", "sum(rate(x[5m]", "foo[5m:1", "((", "foo{a=~", "x[1h:5m", "topk(3, foo{")
 }
 
 // ---------------------------------------------------------------- gen mode: tables of the grammar as Lean source
@@ -1420,6 +1504,7 @@ func runCase(h *verifx.H, r0 *verifx.Rng, src string) {
 		h.Stat("lex.error", 1)
 	}
 	r, ok := checkParse(h, src, "generated")
+	lexWhole(h, src)
 	lexStrings(h, r0, src, toks)
 	lexLiterals(h, src, toks, false)
 	h.Op("parse %s", renderFull(toks))
@@ -1472,6 +1557,7 @@ func runCase(h *verifx.H, r0 *verifx.Rng, src string) {
 
 	// parse the printed text
 	r2, ok2 := checkParse(h, printed, "printed")
+	lexWhole(h, printed)
 	lexStrings(h, r0, printed, ptoks)
 	lexLiterals(h, printed, ptoks, true)
 	h.Op("parse %s", renderFull(ptoks))
@@ -1492,6 +1578,9 @@ func runCase(h *verifx.H, r0 *verifx.Rng, src string) {
 		sig := "rt-" + typ + "-" + strings.Fields(what)[0]
 		if k := badDuration(node); k != "" {
 			sig = k
+		}
+		if strings.HasPrefix(what, "differs-at-timestamp") {
+			sig = "rt-at-timestamp"
 		}
 		h.Viol(sig, "accepted %q; sub-expression %s prints as %q which %s (whole expression printed as %q)", src, typ, p, what, printed)
 		h.Stat("oracle."+sig, 1)
